@@ -14,7 +14,7 @@
 (*     pool (<<op 1=get 2=put, kind, object>>...), dupacq, x = [res, f]       *)
 (*     (what golang.org/x/net read from the same bytes)                       *)
 (*  ev = "write": how (api|fwd), a (what the setters were given), src (d,     *)
-(*     fwd only), rres, wn, werr, out (d), x / xs (x/net on out / src)        *)
+(*     fwd only), rres, wn, werr, out (d), x (x/net on out)                   *)
 (*  ev = "hpack": n, steps <<consumed, produced, err, suffix>>..., capped,    *)
 (*     panic, pool                                                            *)
 (*                                                                           *)
